@@ -13,6 +13,7 @@ import (
 
 	"github.com/aml-org/amf-custom-validator/pkg"
 	"github.com/aml-org/amf-custom-validator/pkg/config"
+	"github.com/aml-org/amf-custom-validator/pkg/events"
 )
 
 type fixedClock struct{}
@@ -159,6 +160,9 @@ func implPairs(h caseHead) map[string]any {
 var implOps = map[string]func(h caseHead, raw []byte) map[string]any{
 	"c01": func(h caseHead, raw []byte) map[string]any { return implPairs(h) },
 	"c02": func(h caseHead, raw []byte) map[string]any { return implC02(h) },
+	"pipe": implPipe,
+	"fuzz": implFuzz,
+	"hist": implHist,
 }
 
 func runImpl(in io.Reader, out io.Writer) {
@@ -194,4 +198,155 @@ func runImpl(in io.Reader, out io.Writer) {
 		w.Flush()
 	}
 	_ = os.Stdout
+}
+
+// ---------------------------------------------------------------- pipeline runs with an event channel
+
+type pipeHead struct {
+	Entry int `json:"entry"`
+}
+
+func implPipe(h caseHead, raw []byte) map[string]any {
+	var ph pipeHead
+	json.Unmarshal(raw, &ph)
+	res := map[string]any{}
+	var compiled *regoPrepared
+	if ph.Entry == 1 || ph.Entry == 3 {
+		c, err := compileQuiet(h.Profile)
+		if err != nil {
+			res["outcome"] = "setup-failed"
+			res["err"] = err.Error()
+			return res
+		}
+		compiled = c
+	}
+	obs := runWithChannel(func(ch *chan events.Event) (string, error) {
+		switch ph.Entry {
+		case 0:
+			return pkg.Validate(h.Profile, h.Data, false, ch)
+		case 1:
+			return pkg.ValidateCompiled(compiled, h.Data, false, ch)
+		case 2:
+			return pkg.ValidateWithConfiguration(h.Profile, h.Data, false, ch, fixedClock{}, defaultRC())
+		case 3:
+			return pkg.ValidateCompiledWithConfiguration(compiled, h.Data, false, ch, fixedClock{}, defaultRC())
+		case 4:
+			_, err := pkg.CompileProfile(h.Profile, false, ch)
+			return "", err
+		}
+		return "", fmt.Errorf("bad entry")
+	})
+	res["outcome"] = obs.Outcome
+	res["events"] = obs.Events
+	res["closes"] = obs.Closes
+	res["err"] = obs.Err
+	res["milestones"] = obs.Milestones
+	if obs.Outcome == "ok" && ph.Entry != 4 {
+		if rv, err := ReadReport(obs.Report); err == nil {
+			res["conforms"] = rv.Conforms
+		} else {
+			res["outcome"] = "badreport"
+		}
+	}
+	return res
+}
+
+// fuzz: any input through any entry point must give a report or an error
+func implFuzz(h caseHead, raw []byte) map[string]any {
+	var ph pipeHead
+	json.Unmarshal(raw, &ph)
+	res := map[string]any{}
+	type ret struct {
+		kind string
+		err  string
+	}
+	rc := make(chan ret, 1)
+	go func() {
+		defer func() {
+			if r := recover(); r != nil {
+				rc <- ret{"panic", fmt.Sprint(r)}
+			}
+		}()
+		var err error
+		switch ph.Entry {
+		case 0:
+			_, err = pkg.Validate(h.Profile, h.Data, false, nil)
+		case 2:
+			_, err = pkg.ValidateWithConfiguration(h.Profile, h.Data, false, nil, fixedClock{}, defaultRC())
+		case 4:
+			_, err = pkg.CompileProfile(h.Profile, false, nil)
+		default:
+			var c *regoPrepared
+			c, err = pkg.CompileProfile(h.Profile, false, nil)
+			if err == nil {
+				if ph.Entry == 1 {
+					_, err = pkg.ValidateCompiled(c, h.Data, false, nil)
+				} else {
+					_, err = pkg.ValidateCompiledWithConfiguration(c, h.Data, false, nil, fixedClock{}, defaultRC())
+				}
+			}
+		}
+		if err != nil {
+			rc <- ret{"err", err.Error()}
+		} else {
+			rc <- ret{"ok", ""}
+		}
+	}()
+	select {
+	case r := <-rc:
+		res["outcome"] = r.kind
+		res["err"] = r.err
+	case <-time.After(60 * time.Second):
+		res["outcome"] = "timeout"
+	}
+	return res
+}
+
+// hist: a history of documents through one compiled profile vs a fresh validation of each document
+type histHead struct {
+	Docs []string `json:"docs"`
+}
+
+func implHist(h caseHead, raw []byte) map[string]any {
+	var hh histHead
+	json.Unmarshal(raw, &hh)
+	res := map[string]any{}
+	compiled, err := compileQuiet(h.Profile)
+	if err != nil {
+		res["outcome"] = "compile-error"
+		res["err"] = err.Error()
+		return res
+	}
+	one := func(f func() (string, error)) (kind, text string) {
+		defer func() {
+			if r := recover(); r != nil {
+				kind, text = "panic", fmt.Sprint(r)
+			}
+		}()
+		rep, err := f()
+		if err != nil {
+			return "err", ""
+		}
+		return "ok", rep
+	}
+	var positions []map[string]any
+	allSame := true
+	for _, d := range hh.Docs {
+		doc := d
+		k1, r1 := one(func() (string, error) {
+			return pkg.ValidateCompiledWithConfiguration(compiled, doc, false, nil, fixedClock{}, defaultRC())
+		})
+		k2, r2 := one(func() (string, error) {
+			return pkg.ValidateWithConfiguration(h.Profile, doc, false, nil, fixedClock{}, defaultRC())
+		})
+		same := k1 == k2 && r1 == r2
+		if !same {
+			allSame = false
+		}
+		positions = append(positions, map[string]any{"compiled": k1, "fresh": k2, "same": same, "bytes": len(r1)})
+	}
+	res["outcome"] = "ok"
+	res["allSame"] = allSame
+	res["positions"] = positions
+	return res
 }
